@@ -455,6 +455,10 @@ pub struct Case {
     pub syntax: String,
     pub icase: bool,
     pub rev_alt: bool,
+    /// the pattern is NOT prefixed by the literal starting point: the whole path r/<subject> is then
+    /// (almost) never in the language although a suffix of it is - the suffix/substring trap
+    #[serde(default)]
+    pub no_prefix: bool,
 }
 
 fn gen_subjects(g: &mut Gen, re: &Re) -> Vec<String> {
@@ -503,11 +507,19 @@ pub fn gen_case(g: &mut Gen) -> Case {
     let ok: Vec<&str> = SYNTAXES.iter().copied().filter(|s| re.expressible(s)).collect();
     let syntax = g.pick(&ok).to_string();
     let subjects = gen_subjects(g, &re);
-    Case { re, subjects, syntax, icase: g.chance(1, 3), rev_alt: g.chance(1, 3) }
+    Case { re, subjects, syntax, icase: g.chance(1, 3), rev_alt: g.chance(1, 3), no_prefix: g.chance(1, 5) }
 }
 
 fn full(re: &Re) -> Re {
     Re::Cat(vec![Re::Lit('r'), Re::Lit('/'), re.clone()])
+}
+
+fn full_of(c: &Case) -> Re {
+    if c.no_prefix {
+        c.re.clone()
+    } else {
+        full(&c.re)
+    }
 }
 
 fn signature_parts(c: &Case, want: bool, subject: &str, members: &[&String]) -> String {
@@ -548,7 +560,7 @@ pub fn check_hook(_ctx: &mut Ctx, c: &Case) -> Outcome {
     if !c.re.expressible(&c.syntax) {
         return Pass::discard("AST not expressible in this syntax");
     }
-    let f = full(&c.re);
+    let f = full_of(c);
     let pattern = render(&f, &c.syntax, c.rev_alt);
     let paths: Vec<String> = c.subjects.iter().map(|s| format!("r/{s}")).collect();
     let refs: Vec<&str> = paths.iter().map(|s| s.as_str()).collect();
@@ -576,6 +588,7 @@ pub fn check_hook(_ctx: &mut Ctx, c: &Case) -> Outcome {
         .class_if(c.re.has_alt(), "alternation")
         .class_if(c.re.uses_interval(), "interval")
         .class_if(c.icase, "icase")
+        .class_if(c.no_prefix, "pattern-without-starting-point-prefix")
         .class_if(c.rev_alt && c.re.has_alt(), "alternatives-reversed")
         .sample(json!({"regextype": c.syntax, "pattern": pattern, "icase": c.icase, "subjects": c.subjects.len(), "members": members.len()}))
         .ok()
@@ -619,7 +632,7 @@ fn check_e2e(ctx: &mut Ctx, e: &E2e) -> Outcome {
             names.push(s.clone());
         }
     }
-    let f = full(&c.re);
+    let f = full(&c.re); // the end-to-end tier always uses the prefixed form
     let pattern = render(&f, &c.syntax, c.rev_alt);
     let test = if c.icase { "-iregex" } else { "-regex" };
     // a syntax in which the pattern text would mean something else, to expose a lost -regextype
@@ -735,10 +748,10 @@ fn run(w: &mut Worker) {
                 continue;
             }
             for icase in [false, true] {
-                cases.push(Case { re: re.clone(), subjects: subs.clone(), syntax: syn.to_string(), icase, rev_alt: false });
+                cases.push(Case { re: re.clone(), subjects: subs.clone(), syntax: syn.to_string(), icase, rev_alt: false, no_prefix: false });
             }
             if re.has_alt() {
-                cases.push(Case { re: re.clone(), subjects: subs.clone(), syntax: syn.to_string(), icase: false, rev_alt: true });
+                cases.push(Case { re: re.clone(), subjects: subs.clone(), syntax: syn.to_string(), icase: false, rev_alt: true, no_prefix: true });
             }
         }
     }
